@@ -93,6 +93,16 @@ def target_spec(name):
         fl = BASE + HOOKS + (["-O2"] if name == "enc_fast" else SAN + ["-O1"])
         units = [(f"{S}/enc/enc_main.cpp", "enc_main.o", fl), (f"{REPO}/art_internal.cpp", "art_internal.o", fl)]
         return "g++", units, ([] if name == "enc_fast" else SAN), ["enc"]
+    if name.startswith("cfgx_"):
+        i = int(name[5:])
+        fl = ["-std=c++20", f"-I{REPO}", f"-I{VERIF}/src", "-g", "-O1"]
+        fl += ["-mavx2"] if i & 1 else ["-msse4.1"]
+        fl += STATS if i & 2 else []
+        fl += [] if i & 4 else ["-DNDEBUG"]
+        fl += ["-DUNODB_SPINLOCK_LOOP_VALUE=1"] if i & 8 else ["-DUNODB_SPINLOCK_LOOP_VALUE=2"]
+        units = [(f"{S}/cfgdiff/cfg_exec.cpp", "cfg_exec.o", fl)]
+        units += [(f"{REPO}/{f}", f.replace(".cpp", ".o"), fl) for f in REPO_LIB]
+        return "g++", units, ["-pthread"], ["cfgdiff", "seq"]
     if name in ("qp_dbg", "qp_ndbg"):
         fl = BASE + HOOKS + (["-O1"] if name == "qp_dbg" else ["-O1", "-DNDEBUG"] + SAN)
         units = [(f"{S}/qsbrptr/qp_main.cpp", "qp_main.o", fl)]
@@ -915,7 +925,179 @@ def check_c17(pid, tier, seed):
     return finish(pid, res)
 
 
+def cfgx_desc(i):
+    return "+".join(["AVX2" if i & 1 else "SSE4.1", "stats" if i & 2 else "nostats",
+                     "assert" if i & 4 else "NDEBUG", "PAUSE" if i & 8 else "EMPTY"])
+
+
+C16_RULE = ("case = one generated history (point operations and scans of C01/C02, uint64 keys and byte-string keys of "
+            "at most 8 bytes, all three index classes) executed by 16 build configurations {AVX2,SSE4.1} x {stats "
+            "on,off} x {assertions,NDEBUG} x {PAUSE,EMPTY spin} without any model; oracle: the hash of the result "
+            "trace (return values, get bytes, scan output) is identical in all 16, the hash of all statistics "
+            "after every operation is identical in the 8 statistics builds, every executor exits 0 (an internal "
+            "assertion is SIGABRT); non-trivial = the history reaches an inode_16 or inode_48 (the SIMD search / "
+            "insert-position / free-slot code that differs between AVX2 and SSE4.1) or contains scan -> remove on "
+            "olc_db; distinct by (seed, case index)")
+
+
+def check_c16(pid, tier, seed):
+    t0 = time.time()
+    res = Result()
+    with cf.ThreadPoolExecutor(max_workers=4) as ex:   # each build is itself parallel
+        exes = list(ex.map(lambda i: build(f"cfgx_{i}"), range(16)))
+    outdir = os.path.join(WORK, "run", pid)
+    shutil.rmtree(outdir, ignore_errors=True)
+    os.makedirs(outdir)
+    faildir = os.path.join(FOUND, pid, "found")
+    batches = 16 if tier == "quick" else 128
+    per = 1500 if tier == "quick" else 6000
+    size = 120
+    cmds = []
+    for b in range(batches):
+        for i in range(16):
+            cmds.append([exes[i], "--seed", str(seed * 1000 + b), "--cases", str(per), "--size", str(size)])
+    results = run_parallel(cmds, timeout=6 * 3600)
+    evaluations = 0
+    nontrivial = 0
+    samples = []
+    disagreements = []
+
+    def emit_case(b, idx):
+        path = os.path.join(outdir, f"C16_seed{seed * 1000 + b}_case{idx}.txt")
+        subprocess.run([exes[0], "--seed", str(seed * 1000 + b), "--cases", str(idx + 1), "--size", str(size),
+                        "--emit", path, "--emit-index", str(idx)], capture_output=True)
+        return path
+
+    for b in range(batches):
+        outs = results[b * 16:(b + 1) * 16]
+        per_cfg = []
+        for i, (c, rc, out, err) in enumerate(outs):
+            lines = {}
+            last_begin = None
+            for l in out.splitlines():
+                t = l.split()
+                if t and t[0] == "begin":
+                    last_begin = int(t[1])
+                elif t and t[0] == "case":
+                    lines[int(t[1])] = t
+            if rc != 0:
+                if rc == "timeout":
+                    res.inconclusive.append(f"executor {cfgx_desc(i)} hit the wall-clock budget")
+                else:
+                    # abort / crash: attribute to the case announced last
+                    path = emit_case(b, last_begin if last_begin is not None else 0)
+                    disagreements.append((path, i, None, f"executor {cfgx_desc(i)} died (rc={rc}): {err.strip()[-300:]}"))
+            per_cfg.append(lines)
+        ref = per_cfg[0]
+        for idx in sorted(ref.keys()):
+            evaluations += 1
+            flags = ""
+            for i in range(16):
+                t = per_cfg[i].get(idx)
+                if t is None:
+                    continue
+                if i & 2:
+                    flags = t[6]
+                if t[4] != ref[idx][4]:
+                    disagreements.append((emit_case(b, idx), 0, i, f"results differ between {cfgx_desc(0)} and {cfgx_desc(i)}"))
+                    break
+            sref = per_cfg[2].get(idx)
+            for i in range(16):
+                t = per_cfg[i].get(idx)
+                if t is None or not (i & 2) or sref is None:
+                    continue
+                if t[5] != sref[5]:
+                    disagreements.append((emit_case(b, idx), 2, i, f"statistics differ between {cfgx_desc(2)} and {cfgx_desc(i)}"))
+                    break
+                # reported memory use: node sizes depend on the assertion setting (debug fields of the
+                # optimistic lock), so it is compared within each assertion group only
+                g = 2 | (i & 5)   # same SIMD level and assertion setting, stats on, EMPTY spin
+                mref = per_cfg[g].get(idx)
+                if mref is not None and t[7] != mref[7]:
+                    disagreements.append((emit_case(b, idx), g, i,
+                                          f"reported memory use differs between {cfgx_desc(g)} and {cfgx_desc(i)}"))
+                    break
+            if flags and (flags[0] == "1" or flags[1] == "1"):
+                nontrivial += 1
+            if len(samples) < 3 and idx < 2:
+                samples.append({"seed": seed * 1000 + b, "case": idx, "line": " ".join(ref[idx])})
+    # confirm + shrink each disagreement (first few)
+    seen = set()
+    for path, i, j, msg in disagreements[:4]:
+        if path in seen:
+            continue
+        seen.add(path)
+
+        def differs(p):
+            outs_ = []
+            for k in ([i] if j is None else [i, j]):
+                q = subprocess.run([exes[k], "--replay", p], capture_output=True, text=True, timeout=600)
+                if q.returncode != 0:
+                    return True
+                t_ = q.stdout.split()
+                outs_.append([t_[4], t_[5], t_[7]])
+            if j is None:
+                return False
+            if outs_[0][0] != outs_[1][0]:
+                return True
+            if (i & 2) and (j & 2):
+                if outs_[0][1] != outs_[1][1]:
+                    return True
+                if (i & 5) == (j & 5) and outs_[0][2] != outs_[1][2]:
+                    return True
+            return False
+
+        if not all(differs(path) for _ in range(3)):
+            res.inconclusive.append(f"disagreement did not reproduce from {path}: {msg}")
+            continue
+        # delta debugging over operation lines
+        with open(path) as f:
+            lines = f.read().splitlines()
+        head, ops = lines[:1], lines[1:]
+        chunk = max(len(ops) // 2, 1)
+        tmp = path + ".cand"
+        while True:
+            removed = False
+            k = 0
+            while k < len(ops):
+                cand = ops[:k] + ops[k + chunk:]
+                with open(tmp, "w") as f:
+                    f.write("\n".join(head + cand) + "\n")
+                if cand and differs(tmp):
+                    ops = cand
+                    removed = True
+                else:
+                    k += chunk
+            if chunk == 1 and not removed:
+                break
+            if not removed:
+                chunk = max(chunk // 2, 1)
+        os.makedirs(faildir, exist_ok=True)
+        dst = os.path.join(faildir, os.path.basename(path))
+        with open(dst, "w") as f:
+            f.write(f"# property C16 violated: {msg}\n# replay with the two executors named above (check.py C16 --replay)\n" +
+                    "\n".join(head + ops) + "\n")
+        res.violations.append((dst, msg))
+    cov = {
+        "evaluations": int(evaluations),
+        "distinct_nontrivial": int(nontrivial),
+        "rule": C16_RULE,
+        "samples": samples or ["(no sample)"],
+        "configurations": [cfgx_desc(i) for i in range(16)],
+        "executions": int(evaluations) * 16,
+        "disagreements_found": len(disagreements),
+        "inconclusive": res.inconclusive,
+        "exhaustive": False,
+    }
+    write_evidence(pid, tier, seed, "exploration", cov, time.time() - t0, len(res.violations),
+                   ["only configurations this x86-64 sandbox can build and run (no NEON, no MSVC)",
+                    "the spin-wait variant only executes under contention; sequential histories compile both variants "
+                    "but execute neither spin body", "byte-string keys of at most 8 bytes (the property's quantifier)"])
+    return finish(pid, res)
+
+
 CHECKS = {
+    "C16": check_c16,
     "C17": check_c17,
     "C08": check_seq,
     "C03": check_olc,
@@ -962,7 +1144,7 @@ def main():
     a = ap.parse_args()
     os.makedirs(WORK, exist_ok=True)
     if a.build_all:
-        for t in ["seq", "enc_fast", "enc_san", "lock", "qsbr", "olc", "qsbr_fault", "qp_dbg", "qp_ndbg"]:
+        for t in ["seq", "enc_fast", "enc_san", "lock", "qsbr", "olc", "qsbr_fault", "qp_dbg", "qp_ndbg"] + [f"cfgx_{i}" for i in range(16)]:
             build(t)
         return 0
     seed = a.seed if a.seed is not None else int(os.environ.get("VERIF_SEED", "1") or 1)
@@ -971,6 +1153,18 @@ def main():
     if a.prop not in CHECKS:
         log(f"unknown property {a.prop}")
         return 2
+    if a.replay and a.prop == "C16":
+        outs = []
+        for i in range(16):
+            q = subprocess.run([build(f"cfgx_{i}"), "--replay", a.replay], capture_output=True, text=True)
+            print(cfgx_desc(i), q.returncode, q.stdout.strip())
+            t_ = q.stdout.split()
+            outs.append((q.returncode, [t_[4], t_[5], t_[7], i & 5] if q.returncode == 0 else None))
+        bad = any(rc != 0 for rc, _ in outs) or len({o[0] for rc, o in outs if o}) > 1 or \
+            len({o[1] for rc, o in outs if o and o[1] != "-"}) > 1 or \
+            any(len({o[2] for rc, o in outs if o and o[2] != "-" and o[3] == g}) > 1 for g in (0, 1, 4, 5))
+        print(f"VIOLATION property=C16 replay={a.replay}" if bad else "OK property=C16 (replay agrees in all configurations)")
+        return 1 if bad else 0
     if a.replay:
         tgt, argf = REPLAY[a.prop]
         exe = build(tgt)
